@@ -78,11 +78,13 @@ Lemma tie_mr_get cn ci sn si :
 Proof. unfold radian_estimate; cases_tie. Qed.
 
 (* a single generic angle (both propagated variances non-zero): the mean is atan2 (sin x) (cos x) *)
-Lemma tie_mr_single x v : v <> 0 -> (1 - cos x * cos x) <> 0 -> (1 - sin x * sin x) <> 0 ->
+Lemma tie_mr_single x v : v <> 0 -> sin x * sin x <> 0 -> cos x * cos x <> 0 ->
   mr_single_pc (OO:=ROps) x v -> mr_single (OO:=ROps) x v = [Ratan2 (sin x) (cos x)].
 Proof.
   intros Hv Hc Hs PC. autounfold with gen; ops_R.
-  assert (A : (1 - cos x * cos x) * v <> 0) by (apply Rmult_integral_contrapositive_currified; assumption).
-  assert (B : (1 - sin x * sin x) * v <> 0) by (apply Rmult_integral_contrapositive_currified; assumption).
+  assert (A : sin x * sin x * v <> 0) by (apply Rmult_integral_contrapositive_currified; assumption).
+  assert (B : cos x * cos x * v <> 0) by (apply Rmult_integral_contrapositive_currified; assumption).
+  assert (Sx : sin x <> 0) by (intro E; apply Hc; rewrite E; ring).
+  assert (Cx : cos x <> 0) by (intro E; apply Hs; rewrite E; ring).
   list_eq ltac:(apply f_equal2; field; repeat split; assumption).
 Qed.
